@@ -23,6 +23,7 @@ Print Assumptions C04_no_invocation_without_allow.
 
 (* a refusing or raising chain: no invocation, and the client receives the refusal *)
 Theorem C04_refusal : forall ip6 c evs, c_mw c = true ->
+  valid_reads evs (run ip6 (fun _ => c_hres c) (c_mw c) (c_upload c) (c_ip c) (c_fp c) init evs) false = true ->
   Spec.C04.refusal c evs
     (run ip6 (fun _ => c_hres c) (c_mw c) (c_upload c) (c_ip c) (c_fp c) init evs) = true.
 Proof. exact Server_proofs.refusal. Qed.
